@@ -347,19 +347,22 @@ func c15Main(r *engine.Run) {
 		// 4×4 lattice: every simple polygon of ≤7 vertices, alone (under an index-dependent anisotropic
 		// stretch so that the envelope's centre row/column varies) and, for ≤5 vertices, as the hole
 		// of a frame (PointOnSurface must avoid the hole whatever its shape)
-		p4 := universe.SimplePolygons(4, 7)
-		frame := []universe.LPt{{-1, -1}, {4, -1}, {4, 4}, {-1, 4}, {-1, -1}}
+		p4 := universe.SimplePolygons(4, 8)
+		n4 := len(p4)
+		// 5×5 lattice (odd side: the envelope's centre row is a vertex row; slopes k/4): ≤5 vertices
+		p4 = append(p4, universe.SimplePolygons(5, 5)...)
+		frame := []universe.LPt{{-1, -1}, {5, -1}, {5, 5}, {-1, 5}, {-1, -1}}
 		stretches := []universe.Affine{id, {A: 1, D: 2, Name: "scale(1,2)"}, {A: 3, D: 1, Name: "scale(3,1)"}, {A: 0, B: 1, C: 1, D: 0, Name: "transpose"}}
 		r.States.Add(int64(len(p4)))
 		if r.Parallel(len(p4), func(i int) {
 			t := stretches[i%len(stretches)]
 			ring := rotateRing(p4[i], i%(len(p4[i])-1), i%2 == 1)
-			c15Check(r, t.Polygon(ring).AsGeometry(), true, "4×4 simple polygon "+t.Name)
+			c15Check(r, t.Polygon(ring).AsGeometry(), true, "4×4/5×5 simple polygon "+t.Name)
 			if len(p4[i])-1 <= 5 {
-				c15Check(r, t.Polygon(rotateRing(frame, i%4, i%3 == 0), ring).AsGeometry(), true, "frame with a 4×4 simple polygon as hole "+t.Name)
+				c15Check(r, t.Polygon(rotateRing(frame, i%4, i%3 == 0), ring).AsGeometry(), true, "frame with a 4×4/5×5 simple polygon as hole "+t.Name)
 			}
 		}) {
-			r.Bound(fmt.Sprintf("4×4 lattice: all %d simple polygons of ≤7 vertices (4 stretches by index), every one of ≤5 vertices also as the hole of a frame", len(p4)))
+			r.Bound(fmt.Sprintf("4×4 lattice: all %d simple polygons of ≤8 vertices; 5×5 lattice: all %d of ≤5 vertices (4 stretches by index); every one of ≤5 vertices also as the hole of a frame", n4, len(p4)-n4))
 		}
 	}
 	for _, t := range append(append([]universe.Affine{}, c02ExactAffines...), floatAffines()...) {
